@@ -6,7 +6,11 @@
                          reference render and of other renders of the SAME
                          document: repeated in the process (kind 0), in fresh
                          processes (1), concurrently with other documents vs
-                         sequentially (2), after other documents vs alone (3).
+                         sequentially (2), after other documents vs alone (3);
+                         kind 4: ONE document.Document written again (same zoom:
+                         writes #2 and #4 vs #1; other zoom: write #3 vs the first
+                         write of a fresh Document) -- Write is a function of
+                         (Document, zoom), it keeps no state on the Document.
                          The model of a render is a function (Draw/Determinism.v:
                          every site is permutation-invariant, renders do not
                          interfere), so it predicts runs = ref.
@@ -21,7 +25,8 @@
    CRace n               number of reports of the Go race detector.
    codes: 0 agree; 1 repeat differs; 3 fresh process differs; 4 concurrent
    differs from sequential; 5 history dependence; 6 anchors not in model order;
-   7 data race reported; 8 Unpack outside the model; 9 ordered map differs. *)
+   7 data race reported; 8 Unpack outside the model; 9 ordered map differs;
+   10 a second Write of the same Document differs. *)
 From Verif Require Export Draw.Determinism.
 From Coq Require Import QArith List NArith ZArith Bool.
 Import ListNotations.
@@ -56,7 +61,7 @@ Definition check (c : case) : N :=
   match c with
   | CSame kind ref runs =>
       if forallb (nlist_eqb ref) runs then 0%N
-      else match kind with 0%N => 1%N | 1%N => 3%N | 2%N => 4%N | _ => 5%N end
+      else match kind with 0%N => 1%N | 1%N => 3%N | 2%N => 4%N | 4%N => 10%N | _ => 5%N end
   | CAnchors pages =>
       if list_eqb (list_eqb anchor_eqb) (resolve_anchors pages) pages then 0%N else 6%N
   | CUnpack keys results =>
